@@ -6,12 +6,13 @@ open SH SH.TsCache
 structure DSt where
   s : Option St
 
-def showCell (c : Slot) : String :=
+/-- a slot the storage answered with zero rows is an empty slice in Go: it prints like a slot never written -/
+def showCell (cfg : Cfg) (c : Slot) : String :=
   match c with
   | none => "_"
-  | some c => s!"{c.t}.{c.key}.{c.ver}.{c.load}"
+  | some c => if rowsOf cfg c.t c.ver == 0 then "_" else s!"{c.t}.{c.key}.{c.ver}.{c.load}"
 
-def showCells (l : List Slot) : String := if l.isEmpty then "-" else " ".intercalate (l.map showCell)
+def showCells (cfg : Cfg) (l : List Slot) : String := if l.isEmpty then "-" else " ".intercalate (l.map (showCell cfg))
 
 def showChunk (c : Chunk) : String :=
   s!"{c.start / nsec}:d{if c.data.isSome then 1 else 0}:l{c.loading}:a{c.awaiters.length}:i{c.invAt}:s{c.lsa}:u{c.lastAccess}:z{c.size}"
@@ -23,14 +24,14 @@ def dump (s : St) : List String :=
   s!"info size={s.info.size} buckets={s.info.buckets} chunks={s.info.chunks} len={s.info.chunkLen} max={s.maxSize} soft={s.soft}"
     :: s.buckets.map (showBucket s)
 
-def doneLine (l : Loader) : String :=
-  if l.gotErr then s!"done {l.id} err" else s!"done {l.id} ok {showCells (slice l.data l.ls l.le)}"
+def doneLine (cfg : Cfg) (l : Loader) : String :=
+  if l.gotErr then s!"done {l.id} err" else s!"done {l.id} ok {showCells cfg (slice l.data l.ls l.le)}"
 
 /-- report finished requests (ascending id) and forget them, then dump the cache -/
 def finishOp (pre : List String) (s : St) : DSt × List String :=
   let fin := (s.loaders.filter (·.finished)).toArray.qsort (fun a b => a.id < b.id) |>.toList
   let s' := { s with loaders := s.loaders.filter (fun l => !l.finished) }
-  ({ s := some s' }, pre ++ fin.map doneLine ++ dump s')
+  ({ s := some s' }, pre ++ fin.map (doneLine s.cfg) ++ dump s')
 
 def step (d : DSt) (toks : List String) : DSt × List String :=
   match toks, d.s with
